@@ -65,6 +65,44 @@ def gen_case(rng: random.Random, tier: str, bias: str = ''):
                 seed=rng.randrange(1 << 30))
 
 
+
+class _NoTruth:
+    def __bool__(self):
+        raise ValueError('the truth value of an element-wise comparison is ambiguous')
+
+
+class OddItem:
+    """a data item whose `==` is overloaded: a "null object" that compares equal to None (value % 5 == 0) or an
+    array-like whose comparison has no truth value (value % 7 == 0).  `None` is recognised by identity by the queue
+    (it is its internal end mark), so such items are ordinary data."""
+    __slots__ = ('v',)
+
+    def __init__(self, v):
+        self.v = v
+
+    def __eq__(self, o):
+        if self.v % 5 == 0:
+            return o is None or (isinstance(o, OddItem) and o.v == self.v)
+        return _NoTruth()
+
+    def __ne__(self, o):
+        r = self.__eq__(o)
+        return (not r) if isinstance(r, bool) else r
+
+    def __hash__(self):
+        return hash(self.v)
+
+    def __repr__(self):
+        return f'OddItem({self.v})'
+
+
+def _wrap(x):
+    return OddItem(x) if isinstance(x, int) and not isinstance(x, bool) and (x % 5 == 0 or x % 7 == 0) else x
+
+
+def _unwrap(x):
+    return x.v if isinstance(x, OddItem) else x
+
 def nontrivial(case, res):
     if case.get('kind') == 'timed':
         return res.get('timed') is not None and (case['s'] is not None or case['r'] is not None)
@@ -90,7 +128,7 @@ def run_case(case):
             if x is None:
                 log(('mark', int(r[1:])) if r[0] == 'S' else ('xput', int(r[1:])) if r[0] == 'C' else ('mput',))
             else:
-                log(('put', int(r[1:]), x) if r[0] == 'S' else ('badput', r, x))
+                log(('put', int(r[1:]), _unwrap(x)) if r[0] == 'S' else ('badput', r, _unwrap(x)))
             super()._put(x)
 
         def _get(self):
@@ -101,8 +139,8 @@ def run_case(case):
                 if x is None:
                     log(('deqm', j))
                 else:
-                    log(('deq', j, x))
-                    deq[j].append(x)
+                    log(('deq', j, _unwrap(x)))
+                    deq[j].append(_unwrap(x))
             else:
                 log(('rdeq',))
             return x
@@ -205,7 +243,7 @@ def run_case(case):
                 for x in case['items'][r][i]:
                     log(('pbeg', i, x))
                     state[('sop', i)] = detsched.now()
-                    iq.put(x)
+                    iq.put(_wrap(x))
                 if hold:
                     return
                 state[('sop', i)] = detsched.now()
@@ -224,7 +262,7 @@ def run_case(case):
             try:
                 state[('cop', j)] = detsched.now()
                 for z in iq:
-                    got[j].append(z)
+                    got[j].append(_unwrap(z))
                     state[('cop', j)] = detsched.now()
                 cstat[j] = 'd'
             except StopRequested:
